@@ -19,7 +19,8 @@ SPEC = {
                    "PyMatterSim.reader.dump_reader:DumpReader.read_onefile"],
     "floors": {"frames": 300, "types": 300, "positions_bitwise": 100, "positions_mapped": 100,
                "positions_wrapped": 50, "cell": 300, "sample_files": 5, "reader_object_reread": 20, "empty_frames": 3,
-               "atoms_exactly_on_a_box_face": 10},
+               "atoms_exactly_on_a_box_face": 10, "files_in_other_units_of_length": 20, "layout_changing_between_frames": 20,
+               "trailing_columns_named_like_coordinates": 40},
     "insitu": (),
     "rule": ("writer model: truth drawn first, text emitted under LAMMPS conventions; classes {2D,3D} x {x,xs,xu} x "
              "{ortho,tri+,tri-,tri mixed,tri0} x atom order {sorted,reversed,random} x 1..5 frames x origins x number "
@@ -66,13 +67,30 @@ def one_file(ctx, rng, path, via_class, big=False):
         # restarts and reset_timestep: equal consecutive timesteps and timesteps going backwards are frames like any other
         ts = rng.choice(np.array([0, 0, 100, 100, 2500, 7]), size=nframes, replace=True)
     frames = []
+    # the same file in another unit of length (units si: boxes of a few 1e-9 m; fm): only number formats that keep the digits
+    unit = float(rng.choice([1e-9, 1e-10, 1e5])) if (fmt != "f" and rng.random() < 0.12) else 1.0
+    if unit != 1.0:
+        ctx.count("files_in_other_units_of_length")
+    # a file whose layout changes from frame to frame (change_box all triclinic between two runs appended to one dump; dump_modify of the
+    # coordinate style; files concatenated with cat): every frame carries its own header and is read by it
+    mixed_layout = bool(nframes > 1 and not big and rng.random() < 0.15)
+    if mixed_layout:
+        ctx.count("layout_changing_between_frames")
+    # trailing columns named like another coordinate style / the image flags
+    alias = int(rng.integers(0, 3)) if (extra > 0 and not mixed_layout and rng.random() < 0.3) else None
+    if alias is not None:
+        ctx.count("trailing_columns_named_like_coordinates")
     for _k in range(nframes):
         # atom count changing between frames, down to an empty frame (LAMMPS writes "0" atoms when the dumped group is empty)
         N = N0 if not vary_n else int(rng.integers(0, 30))
-        frames.append(gd.gen_frame_truth(rng, d, coord, cellkind, N, K, fmt, origin_kind))
+        ck, cs = cellkind, coord
+        if mixed_layout:
+            ck = str(rng.choice(["ortho", "tri+", "tri-", "tri"]))
+            cs = str(rng.choice(["x", "xs", "xu"]))
+        frames.append(gd.gen_frame_truth(rng, d, cs, ck, N, K, fmt, origin_kind, unit))
         if frames[-1]["on_boundary"]:
             ctx.count("atoms_exactly_on_a_box_face", frames[-1]["on_boundary"])
-    text, _extras = gd.emit(rng, frames, [int(t) for t in ts], order, extra, spurious_z, flags, ws)
+    text, _extras = gd.emit(rng, frames, [int(t) for t in ts], order, extra, spurious_z, flags, ws, alias)
     with open(path, "w") as f:
         f.write(text)
     cls = f"{d}D/{coord}/{cellkind}"
@@ -83,7 +101,9 @@ def one_file(ctx, rng, path, via_class, big=False):
         ctx.count("line_order_differs_between_frames")
     ctx.case(cls, text, nontrivial=nontrivial,
              sample={"order": order, "nframes": nframes, "timesteps": ts, "head": text[:600]})
-    key = f"read_lammps/{coord}/{'triclinic' if cellkind != 'ortho' else 'orthogonal'}"
+    key = f"read_lammps/{coord}/{'triclinic' if cellkind != 'ortho' else 'orthogonal'}" if not mixed_layout else "read_lammps/layout_changes_between_frames"
+    if alias is not None:
+        key += "/trailing_" + gd.ALIAS[coord][alias][0]
     if via_class:
         # history: half of the reads through the class re-use ONE long-lived reader object per dimension; the file behind its
         # name has been rewritten since the last read (a running simulation appends frames, a scratch name is reused), so
@@ -126,7 +146,7 @@ def one_file(ctx, rng, path, via_class, big=False):
             ctx.violation(key + "/posshape", f"positions shape {pos.shape} != {(N, d)}", info())
             continue
         exp, how = gd.expected_positions(fr)
-        scale = max(np.abs(fr["rlo"]).max(), np.abs(fr["rhi"]).max(), 1.0)
+        scale = max(np.abs(fr["rlo"]).max(), np.abs(fr["rhi"]).max(), 1.0 if unit == 1.0 else 0.0)      # relative to the file's own lengths
         if how == "bitwise":
             ctx.check("positions_bitwise", np.array_equal(pos, exp), key + "/positions",
                       lambda: f"frame {k}: verbatim coordinates differ, max dev {np.abs(pos - exp).max():.3g}; "
